@@ -338,6 +338,21 @@ def _accumulators(ctx, f: FuncInfo) -> Dict[str, ast.stmt]:
         if name is None or not (isinstance(value, ast.List) and not value.elts):
             continue
         if ann_t is None:
+            # untyped ``errors = []``: an accumulator if errors are put into it
+            for other in art.cfg.nodes:
+                mk = _mutation_kind(other, name)
+                if mk is None or not isinstance(other.stmt, ast.Expr):
+                    continue
+                call = other.stmt.value
+                if not call.args:
+                    continue
+                at = art.types.type_of(call.args[-1], art.env_at(other))
+                if _is_errorish(at, allow_str=False) or (_is_errorish(at) and "error" in name.lower()):
+                    ann_t = Seq(at.elem if isinstance(strip_opt(at), Seq) and mk == "extend" else strip_opt(at) if mk == "append" else strip_opt(at), "List")
+                    if isinstance(strip_opt(at), Seq) and mk == "extend":
+                        ann_t = Seq(strip_opt(at).elem, "List")
+                    break
+        if ann_t is None:
             continue
         if isinstance(ann_t, Seq) and (
             (isinstance(ann_t.elem, Cls) and ann_t.elem.ci.name == "Error")
